@@ -8,6 +8,8 @@ package sctree
 import (
 	"fmt"
 
+	"github.com/0chain/common/core/statecache"
+
 	"pgregory.net/rapid"
 
 	"verif/harness/internal/gen"
@@ -234,4 +236,31 @@ func (t *Tree) MultiDepthKey() bool {
 		}
 	}
 	return false
+}
+
+// MutVal is a mutable cache value with correct deep copies (harness value type).
+type MutVal struct{ B []byte }
+
+func (m *MutVal) Clone() statecache.Value { return &MutVal{B: append([]byte(nil), m.B...)} }
+func (m *MutVal) CopyFrom(v interface{}) bool {
+	o, ok := v.(*MutVal)
+	if !ok {
+		return false
+	}
+	m.B = append([]byte(nil), o.B...)
+	return true
+}
+
+// MutValHooks: callers scribble on what they pass in and on what they get back.
+func MutValHooks() Hooks {
+	return Hooks{
+		Make: func(v string) statecache.Value { return &MutVal{B: []byte(v)} },
+		Read: func(v statecache.Value) string { return string(v.(*MutVal).B) },
+		Mutate: func(v statecache.Value) {
+			b := v.(*MutVal).B
+			for i := range b {
+				b[i] ^= 0x5a
+			}
+		},
+	}
 }
